@@ -53,6 +53,38 @@ const char* kHostileRequestLines[] = {
     "G", "", " GET / HTTP/1.1", "GET / HTTP/1.1\r", "XYZZY / HTTP/1.1", "GET /?a=1&&b HTTP/1.1", "GET ? HTTP/1.1", "POST /?& HTTP/1.0", "GET /a b HTTP/1.1", "GET\t/\tHTTP/1.1",
 };
 
+// Grammar-directed header lines (beside the table): (a) a numeric field with a digit string of every length from 1 to 40 -
+// a fixed-size buffer or an accumulator fails at exactly one length, which a generator that jumps to "very long" never
+// hits; (b) a long run of characters that are legal for the field followed by one that is not - what a validating
+// pattern with nested repetition backtracks on for ever.
+std::string generated_header(sim::Rng& rng)
+{
+    if (rng.chance(0.5)) {
+        static const char* kNumeric[] = { "Content-Length: %s", "Cache-Control: max-age=%s", "Cache-Control: s-maxage=%s", "Cache-Control: max-stale=%s",
+                                          "Cache-Control: min-fresh=%s", "Cache-Control: no-cache, max-age=%s, private", "Accept: text/html;q=%s", "Accept: text/plain; q=0.%s",
+                                          "Accept-Encoding: gzip;q=%s", "Host: example.org:%s", "Host: [::1]:%s", "Content-Type: text/plain; q=%s", "Expect: %s", "Keep-Alive: timeout=%s" };
+        size_t len = static_cast<size_t>(1 + rng.below(40));
+        int style = static_cast<int>(rng.below(4));
+        std::string digits;
+        for (size_t i = 0; i < len; ++i) digits.push_back(style == 0 ? '0' : style == 1 ? '9' : static_cast<char>('0' + rng.below(10)));
+        if (style == 0) digits.back() = '1';
+        if (rng.chance(0.1)) digits.insert(0, rng.chance(0.5) ? "-" : "+");
+        std::string t = kNumeric[rng.below(sizeof kNumeric / sizeof kNumeric[0])];
+        return t.replace(t.find("%s"), 2, digits);
+    }
+    static const char* kNames[] = { "Host", "Accept", "Content-Type", "Authorization", "Cache-Control", "Accept-Encoding", "Connection", "Date", "Expect",
+                                    "User-Agent", "Location", "Content-Encoding", "Access-Control-Allow-Origin", "Cookie", "Server", "Allow" };
+    static const char kLegal[] = "abcdefghijklmnopqrstuvwxyzABCDEFGHIJKLMNOPQRSTUVWXYZ0123456789-._";
+    static const char kIllegal[] = { ' ', '/', '!', '\x80', '\t', '"', '@', '\\', '\xff', '(' };
+    std::string v;
+    size_t run = static_cast<size_t>(20 + rng.below(60));
+    bool dotted = rng.chance(0.6);
+    for (size_t i = 0; i < run; ++i) v.push_back(dotted && i % 9 == 8 ? (rng.chance(0.7) ? '.' : '-') : kLegal[rng.below(sizeof kLegal - 1)]);
+    v.push_back(kIllegal[rng.below(sizeof kIllegal)]);
+    if (rng.chance(0.3)) v += msggen::token(rng, 0, 6);
+    return std::string(kNames[rng.below(sizeof kNames / sizeof kNames[0])]) + ": " + v;
+}
+
 std::string hostile_message(sim::Rng& rng, size_t max_size)
 {
     int k = static_cast<int>(rng.below(10));
@@ -70,7 +102,7 @@ std::string hostile_message(sim::Rng& rng, size_t max_size)
         else if (lk < 8) s = std::string(rng.chance(0.5) ? "POST " : "GET ") + kHostileTargets[rng.below(sizeof kHostileTargets / sizeof kHostileTargets[0])] + " HTTP/1.1\r\n";
         else s = std::string(kHostileRequestLines[rng.below(sizeof kHostileRequestLines / sizeof kHostileRequestLines[0])]) + "\r\n";
         int n = static_cast<int>(rng.range(1, 5));
-        for (int i = 0; i < n; ++i) s += std::string(kHostileHeaders[rng.below(sizeof kHostileHeaders / sizeof kHostileHeaders[0])]) + "\r\n";
+        for (int i = 0; i < n; ++i) s += (rng.chance(0.3) ? generated_header(rng) : std::string(kHostileHeaders[rng.below(sizeof kHostileHeaders / sizeof kHostileHeaders[0])])) + "\r\n";
         s += "\r\n";
         int b = static_cast<int>(rng.below(4));
         if (b == 1) s += msggen::token(rng, 0, 300);
